@@ -478,7 +478,18 @@ pub fn token(rng: &mut Rng, ctx: &Ctx, kind: usize) -> String {
                 "\x1b7", "\x1b8", "\x1b[s", "\x1b[u", "\x1b[?1048h", "\x1b[?1048l", "\x1b7", "\x1b8", "\u{9b}s", "\u{9b}u",
             ])
             .to_string(),
-        K_REP => format!("{}{}b", csi(rng), param(rng, cols)),
+        K_REP => {
+            // the model is a list machine: a REP that scrolls tens of thousands of rows is quadratic
+            // there, so huge counts are only generated with auto-wrap off (no scrolling); the
+            // model-free stress mode covers huge counts with wrapping on the implementation
+            let p = param(rng, cols);
+            let big = p.parse::<u64>().map_or(false, |v| v > 120);
+            if big {
+                format!("\x1b[?7l{}{}b", csi(rng), p)
+            } else {
+                format!("{}{}b", csi(rng), p)
+            }
+        }
         K_CHARSET => rng
             .pick(&["\x0e", "\x0f", "\x1b(0", "\x1b(B", "\x1b)0", "\x1b)B", "\x1b(A", "\x1b)1", "\x1b(0", "\x0e"])
             .to_string(),
